@@ -45,6 +45,14 @@ Example C08_nonvacuous :
    [0; 1; 99999999; 5; 2; 1; 1; 2]].
 Proof. vm_compute. reflexivity. Qed.
 
+
+(** the uniqueness tests, copy-on-write and unwrapping functions (make_mut, make_unique, get_mut, try_unique, try_unwrap,
+    unwrap_or_clone, into_inner, from_arc, OffsetArc::make_mut, drop, clone ... 21 functions) still have the bodies the
+    machine's library functions were transcribed from *)
+Theorem C08_functions_are_the_modelled_ones : Extracted.cow_forms_ok = true.
+Proof. reflexivity. Qed.
+
 Check C08_make_mut_is_copy_on_write.
 Print Assumptions C08_make_mut_is_copy_on_write.
 Print Assumptions C08_cow_is_race_free.
+Print Assumptions C08_functions_are_the_modelled_ones.
